@@ -54,6 +54,10 @@ pub struct SysSpec {
     /// 0 none, 1 = PB falls silent for longer than its lease and comes back (S8 end-to-end)
     #[serde(default)]
     pub blackout: u32,
+    /// "none" | "W2" | "R3": an endpoint created after the deletion was observed (second writer in A with W's QoS,
+    /// second reader in B with R's QoS); it must not be matched with the deleted endpoint
+    #[serde(default)]
+    pub post: String,
     pub seed: u64,
     /// pause in ms after each creation step; when empty, drawn from the seed
     #[serde(default)]
@@ -309,6 +313,8 @@ struct World {
     w: Option<AnyWriter>,
     r: Option<AnyReader>,
     r2: Option<AnyReader>,
+    w2: Option<AnyWriter>,
+    r3: Option<AnyReader>,
     /// samples taken so far per reader, in take order
     got: HashMap<&'static str, usize>,
     /// current matched counts as last reported
@@ -343,6 +349,12 @@ impl World {
         }
         if let Some(r) = &self.r2 {
             push("R2", r.statuses(), &mut self.cur);
+        }
+        if let Some(w) = &self.w2 {
+            push("W2", w.statuses(), &mut self.cur);
+        }
+        if let Some(r) = &self.r3 {
+            push("R3", r.statuses(), &mut self.cur);
         }
     }
     fn take_all(&mut self, out: &mut Vec<Value>) {
@@ -409,24 +421,32 @@ fn create(world: &mut World, what: &str, spec: &SysSpec, out: &mut Vec<Value>) {
                 Err(_) => ok = false,
             }
         }
-        "W" => {
+        "W" | "W2" => {
             let q = qos(spec.wrel, spec.wtl, spec.depth);
             let p = world.parts["PA"].create_publisher(&q);
             ok = false;
             if let Ok(p) = p {
                 if spec.keyed {
                     if let Ok(w) = p.create_datawriter_cdr::<VSample>(&world.topics["TA"], None) {
-                        world.w = Some(AnyWriter::K(w));
+                        if what == "W" {
+                            world.w = Some(AnyWriter::K(w));
+                        } else {
+                            world.w2 = Some(AnyWriter::K(w));
+                        }
                         ok = true;
                     }
                 } else if let Ok(w) = p.create_datawriter_no_key_cdr::<VSample>(&world.topics["TA"], None) {
-                    world.w = Some(AnyWriter::N(w));
+                    if what == "W" {
+                        world.w = Some(AnyWriter::N(w));
+                    } else {
+                        world.w2 = Some(AnyWriter::N(w));
+                    }
                     ok = true;
                 }
             }
         }
-        "R" | "R2" => {
-            let (q, pn, tn) = if what == "R" {
+        "R" | "R2" | "R3" => {
+            let (q, pn, tn) = if what == "R" || what == "R3" {
                 (qos(spec.rrel, spec.rtl, spec.depth), "PB", "TB")
             } else {
                 (qos(true, spec.late == "tl", spec.depth), if spec.third { "PC" } else { "PB" }, if spec.third { "TC" } else { "TB" })
@@ -442,6 +462,8 @@ fn create(world: &mut World, what: &str, spec: &SysSpec, out: &mut Vec<Value>) {
                     ok = true;
                     if what == "R" {
                         world.r = Some(r);
+                    } else if what == "R3" {
+                        world.r3 = Some(r);
                     } else {
                         world.r2 = Some(r);
                     }
@@ -453,6 +475,7 @@ fn create(world: &mut World, what: &str, spec: &SysSpec, out: &mut Vec<Value>) {
     let guid = match what {
         "R" => world.r.as_ref().map(AnyReader::guid_hex),
         "R2" => world.r2.as_ref().map(AnyReader::guid_hex),
+        "R3" => world.r3.as_ref().map(AnyReader::guid_hex),
         _ => None,
     }
     .unwrap_or_default();
@@ -472,7 +495,7 @@ pub fn run_one(run_no: usize, spec: &SysSpec, out: &mut Vec<Value>) -> Vec<Vec<u
     // distinct domain per run in flight: run_parallel gives run k to thread k % jobs
     let domain = 1 + (run_no % 180) as u16;
     doms().lock().unwrap().insert(domain, DomCfg { loss_pct: 0, seed: spec.seed, counter: 0, block_from: None, sent: 0, dropped: 0, net: vec![], t0: Some(Instant::now()) });
-    let mut world = World { domain, t0: Instant::now(), parts: HashMap::new(), topics: HashMap::new(), w: None, r: None, r2: None, got: HashMap::new(), cur: HashMap::new() };
+    let mut world = World { domain, t0: Instant::now(), parts: HashMap::new(), topics: HashMap::new(), w: None, r: None, r2: None, w2: None, r3: None, got: HashMap::new(), cur: HashMap::new() };
     let mut rng = spec.seed;
     let mut next = |m: u64| {
         rng = mix(rng.wrapping_add(0x9e3779b97f4a7c15));
@@ -624,12 +647,21 @@ pub fn run_one(run_no: usize, spec: &SysSpec, out: &mut Vec<Value>) -> Vec<Vec<u
             _ => w.cur("R") < rbefore,
         });
         out.push(json!({"ev":"Sync","phase":"unmatch","done":seen,"wcur":world.cur("W"),"rcur":world.cur("R"),"waited":waited,"t":world.ms()}));
+        /* an endpoint created after the peer's endpoint was deleted (and the deletion observed here) */
+        if seen && spec.late == "none" && ((spec.post == "W2" && spec.del == "R") || (spec.post == "R3" && spec.del == "W")) {
+            let what = if spec.post == "W2" { "W2" } else { "R3" };
+            create(&mut world, what, spec, out);
+            let (_, waited) = world.wait(NEGATIVE_WAIT_MS, out, |_| false);
+            out.push(json!({"ev":"Sync","phase":"post","what":what,"done":true,"wcur":world.cur(what),"rcur":world.cur(what),"waited":waited,"t":world.ms()}));
+        }
     }
     let (sent, dropped) = doms().lock().unwrap().get(&domain).map(|c| (c.sent, c.dropped)).unwrap_or((0, 0));
     out.push(json!({"ev":"End","sent":sent,"dropped":dropped,"t":world.ms()}));
     world.w = None;
     world.r = None;
     world.r2 = None;
+    world.w2 = None;
+    world.r3 = None;
     world.topics.clear();
     world.parts.clear();
     doms().lock().unwrap().remove(&domain);
@@ -668,7 +700,7 @@ pub fn random_specs(seed: u64, runs: usize) -> Vec<SysSpec> {
     (0..runs)
         .map(|k| {
             let full = next(10) < 7; // most runs use the configuration the delivery clauses speak of
-            SysSpec {
+            let mut sp = SysSpec {
                 order: random_order(&mut next),
                 keyed: next(3) != 0,
                 wrel: full || next(2) == 0,
@@ -685,9 +717,26 @@ pub fn random_specs(seed: u64, runs: usize) -> Vec<SysSpec> {
                 loss: [0, 0, 10, 20][next(4) as usize],
                 del: ["none", "R", "W", "PA", "PB"][next(5) as usize].to_string(),
                 blackout: u32::from(next(8) == 0),
+                post: String::new(),
                 seed: mix(seed.wrapping_mul(1000).wrapping_add(k as u64)),
                 pauses: vec![],
+            };
+            // every fourth run: delete one endpoint, then create a new one on the other side
+            if k % 4 == 3 {
+                sp.late = "none".into();
+                sp.third = false;
+                sp.blackout = 0;
+                sp.wrel = true;
+                sp.wtl = sp.wtl || sp.rtl;
+                if (k / 4) % 2 == 0 {
+                    sp.del = "R".into();
+                    sp.post = "W2".into();
+                } else {
+                    sp.del = "W".into();
+                    sp.post = "R3".into();
+                }
             }
+            sp
         })
         .collect()
 }
